@@ -16,5 +16,8 @@ func NewMessageHeader(typeOf RequestType) *Header {
 
 // ToString returns customized string
 func (its *Header) ToString() string {
+	if its == nil {
+		return "no header"
+	}
 	return fmt.Sprintf("%s|%s|%s", its.Version, its.Type, its.Agent)
 }
